@@ -1491,3 +1491,76 @@ def rule_W3(repo: Repo) -> RuleResult:
     if not res.instances:
         raise AnalysisError("W3: no accepted-row path with a decided null test found")
     return res
+
+
+# ------------------------------------------------------------------------------------------------ D7b
+
+def rule_D7b(repo: Repo) -> RuleResult:
+    """GroupBy.var returns (SS - S^2/n) / (n - ddof) where SS, S, n are the results of the sum_squares, sum and count
+    primitives (D7 checks how they are obtained); std is var ** 0.5.  The expression is compared in canonical arithmetic
+    form; a clamp np.maximum(numerator, 0) (which propagates NaN) is accepted around the numerator."""
+    res = RuleResult("D7b", "var = (sum_squares - sum^2/count) / (count - ddof); std = var ** 0.5")
+    core = repo.mod(CORE)
+    var = core.func("GroupBy.var")
+    roles: Dict[str, str] = {}
+    for s in walk_no_nested(var.node):
+        if isinstance(s, ast.Assign) and len(s.targets) == 1 and isinstance(s.targets[0], ast.Name):
+            t = norm(s.value)
+            if "'sum_squares'" in t or '"sum_squares"' in t:
+                roles[s.targets[0].id] = "SS"
+            elif ".sum(" in t and "** 2" in t:
+                roles[s.targets[0].id] = "S2"
+            elif ".sum(" in t:
+                roles[s.targets[0].id] = "S"
+            elif ".count(" in t:
+                roles[s.targets[0].id] = "N"
+    rets = [r for r in walk_no_nested(var.node) if isinstance(r, ast.Return) and r.value is not None]
+    if len(rets) != 1 or not {"SS", "N"} <= set(roles.values()):
+        raise AnalysisError(f"D7b: primitives / return of GroupBy.var not identified ({roles})")
+    env = {name: ("name", role) for name, role in roles.items()}
+    # forward-substitute the remaining single-definition locals
+    for s in walk_no_nested(var.node):
+        if isinstance(s, ast.Assign) and len(s.targets) == 1 and isinstance(s.targets[0], ast.Name) and s.targets[0].id not in roles:
+            env[s.targets[0].id] = _canon(_strip_clamp(s.value), env)
+    got = _canon(_strip_clamp(rets[0].value), env)
+    ddof = ("name", "ddof")
+    N, SS = ("name", "N"), ("name", "SS")
+    s2_forms = [("name", "S2"), ("Pow", ("name", "S"), ("const", "2")), ("mul", ("name", "S"), ("name", "S"))]
+    wants = []
+    for s2 in s2_forms:
+        num = ("add",) + tuple(sorted([SS, ("neg", ("div", s2, N))], key=repr))
+        den = ("add",) + tuple(sorted([N, ("neg", ddof)], key=repr))
+        wants.append(("div", num, den))
+    construct = f"var = {_show_canon(got)[:100]}"
+    if got in wants:
+        res.ok(var, rets[0], construct, "(SS - S^2/n) / (n - ddof)")
+    else:
+        res.bad(var, rets[0], construct,
+                "the value returned by var is not (sum_squares - sum^2/count) / (count - ddof) of its three primitives "
+                "(compared in canonical arithmetic form)")
+    std = core.func("GroupBy.std")
+    r = [x for x in walk_no_nested(std.node) if isinstance(x, ast.Return) and x.value is not None]
+    okstd = len(r) == 1 and ((isinstance(r[0].value, ast.BinOp) and isinstance(r[0].value.op, ast.Pow)
+                              and norm(r[0].value.right) in ("0.5", "1 / 2")) or
+                             (isinstance(r[0].value, ast.Call) and norm(r[0].value.func) in ("np.sqrt", "numpy.sqrt")))
+    if okstd and ".var(" in norm(r[0].value):
+        res.ok(std, r[0], f"std = {norm(r[0].value)[:60]}", "square root of var")
+    else:
+        res.bad(std, r[0] if r else std.node, f"std = {norm(r[0].value)[:60] if r else '?'}", "std must be the square root of var")
+    return res
+
+
+def _strip_clamp(e: ast.AST) -> ast.AST:
+    """np.maximum(X, 0) / np.maximum(0, X) -> X (a clamp that propagates NaN); applied recursively"""
+    class R(ast.NodeTransformer):
+        def visit_Call(self, node):
+            self.generic_visit(node)
+            if norm(node.func) in ("np.maximum", "numpy.maximum") and len(node.args) == 2:
+                a, b = node.args
+                if isinstance(b, ast.Constant) and b.value in (0, 0.0):
+                    return a
+                if isinstance(a, ast.Constant) and a.value in (0, 0.0):
+                    return b
+            return node
+    import copy
+    return R().visit(copy.deepcopy(e))
